@@ -11,3 +11,9 @@ pub mod atomic {
         #[verifier::external_body] pub fn get_mut(&mut self) -> &mut u64 { unimplemented!() }
     }
 }
+
+// TRUSTED: a Vec never holds more than isize::MAX elements (alloc guarantees it; vstd only knows usize::MAX)
+#[verifier::external_body]
+pub proof fn axiom_vec_len<T>(v: &Vec<T>)
+    ensures v@.len() <= 0x7fff_ffff_ffff_ffff
+{ }
